@@ -97,13 +97,17 @@ Theorem C15_new : forall f n t s, field_wf f -> strukt_ok s -> t <> 0 ->
 Proof. exact gen_new. Qed.
 Print Assumptions C15_new.
 
-(* generated object size = 8 * dataWordCount / pointerCount, type id = node id; a field the schema
+(* generated object size = 8 * dataWordCount / pointerCount for ALL dataWordCount < 65536 (the product
+   is not taken in uint16), type id = node id; a field the schema
    places inside the node can be set on a struct allocated with that size *)
 Theorem C15_sizes : forall n, nd_isgroup n = false ->
+  0 <= nd_dwc n < 65536 -> 0 <= nd_pc n < 65536 ->
   ni_new (gen_node n) = Some (8 * nd_dwc n, nd_pc n) /\
   ni_newroot (gen_node n) = Some (8 * nd_dwc n, nd_pc n) /\
   ni_list (gen_node n) = Some (8 * nd_dwc n, nd_pc n) /\
-  ni_typeid (gen_node n) = Some (nd_id n).
+  ni_typeid (gen_node n) = Some (nd_id n) /\
+  (* exact over the whole uint16 range of dataWordCount: no reduction modulo 2^16 *)
+  0 <= 8 * nd_dwc n <= 524280 /\ (8192 <= nd_dwc n -> 65536 <= fst (gen_objsize n)).
 Proof. exact gen_sizes. Qed.
 Print Assumptions C15_sizes.
 
